@@ -37,7 +37,7 @@ def _run_one(args):
     if entry['expect'] == 'fire':
         if viol:
             want = entry.get('rule')
-            if want and not any(o.rule == want for o in viol):
+            if want and want.split('.')[0] == prop and not any(o.rule == want for o in viol):
                 return (entry['id'], 'fail', 'fired, but not rule %s: %s'
                         % (want, sorted({o.rule for o in viol})))
             return (entry['id'], 'ok', 'fired: ' + ', '.join(sorted({o.rule for o in viol}))[:200])
